@@ -473,4 +473,66 @@ def CallingForm.yieldsStream : CallingForm → Bool
 def streamShaped (outType : List Char) (rt : Option (List Char)) : Bool :=
   rt == some ("Iterable[".toList ++ outType ++ "]".toList)
 
+/-! ### 9. the snippet index (`SnippetIndex.__init__` / `add_snippet` / `get_snippet`)
+`_index[service][rpc] = {"sync": None, "async": None}` for every RPC of the API; a snippet is filed by the `async`
+flag of its metadata's client method — its region tag plays no part. -/
+
+/-- what `add_snippet` reads of a `Snippet`: the metadata's service / RPC short names, the `async` flag, and
+    (to tell snippets apart) the region tag -/
+structure Snip where
+  service : List Char
+  rpc : List Char
+  isAsync : Bool
+  regionTag : List Char
+deriving Repr, DecidableEq
+
+structure IxEntry where
+  service : List Char
+  rpc : List Char
+  sync : Option Snip
+  async : Option Snip
+deriving Repr, DecidableEq
+
+abbrev Index := List IxEntry
+
+inductive IxErr where
+  | unknownService | rpcMethodNotFound
+deriving Repr, DecidableEq
+
+def Index.init (keys : List (List Char × List Char)) : Index := keys.map fun (s, r) => ⟨s, r, none, none⟩
+
+def Index.find (ix : Index) (svc rpc : List Char) : Option IxEntry :=
+  List.find? (fun e => decide (e.service = svc ∧ e.rpc = rpc)) ix
+
+def Index.upd (svc rpc : List Char) (f : IxEntry → IxEntry) : Index → Index
+  | [] => []
+  | e :: es => if e.service = svc ∧ e.rpc = rpc then f e :: es else e :: Index.upd svc rpc f es
+
+def IxEntry.put (e : IxEntry) (s : Snip) : IxEntry :=
+  if s.isAsync then { e with async := some s } else { e with sync := some s }
+
+/-- the two look-ups both functions start with -/
+def Index.locate (ix : Index) (svc rpc : List Char) : Except IxErr IxEntry :=
+  if ix.any (fun e => decide (e.service = svc)) then
+    match ix.find svc rpc with
+    | some e => .ok e
+    | none => .error .rpcMethodNotFound
+  else .error .unknownService
+
+def Index.addSnippet (ix : Index) (s : Snip) : Except IxErr Index :=
+  match ix.locate s.service s.rpc with
+  | .error e => .error e
+  | .ok _ => .ok (Index.upd s.service s.rpc (·.put s) ix)
+
+def Index.getSnippet (ix : Index) (svc rpc : List Char) (sync : Bool) : Except IxErr (Option Snip) :=
+  match ix.locate svc rpc with
+  | .error e => .error e
+  | .ok e => .ok (if sync then e.sync else e.async)
+
+def Index.addAll : Index → List Snip → Except IxErr Index
+  | ix, [] => .ok ix
+  | ix, s :: ss => match ix.addSnippet s with
+    | .error e => .error e
+    | .ok ix' => Index.addAll ix' ss
+
 end GapicModel.Model.Samples
